@@ -198,7 +198,58 @@ func body(nSenders, perSender int, frag bool, typ uint8, blockedFirst bool) func
 	}
 }
 
+// registration: two goroutines register a handler each on one endpoint at the
+// same time; afterwards every registered handler receives every frame.
+func registration() {
+	ca, cb := vnet.NewPair("a", "b")
+	a := net.NewEndPoint(ca)
+	b := net.NewEndPoint(cb)
+	frameType = net.Post
+	vrt.Explore()
+	got := [][]uint32{nil, nil}
+	ids := []int{-1, -1}
+	var ws []*vrt.Thread
+	for i := 0; i < 2; i++ {
+		i := i
+		ws = append(ws, vrt.GoWorker(fmt.Sprintf("registrar%d", i), func() {
+			q := make(chan *net.Message, 8)
+			vrt.GoNamed(fmt.Sprintf("drain%d", i), func() {
+				for m := range q {
+					got[i] = append(got[i], m.Header.ID)
+				}
+			})
+			ids[i] = b.MakeHandler(func(h *net.Header) (bool, bool) { return true, true }, q, nil)
+		}))
+	}
+	vrt.Quiesce()
+	for _, w := range ws {
+		if !w.Done() {
+			vrt.Failf("hang/registrar", "MakeHandler blocked on %s", w.BlockedOn())
+		}
+	}
+	if ids[0] == ids[1] {
+		vrt.Failf("registration/same-identifier", "two concurrent registrations received the same identifier %d", ids[0])
+	}
+	for k := 0; k < 2; k++ {
+		id := uint32(100 + k)
+		m := net.NewMessage(net.NewHeader(net.Post, 1, 9, uint32(k+50), id), payload(id, sizes[(1+k)%len(sizes)]))
+		a.Send(m)
+	}
+	vrt.Quiesce()
+	for i := 0; i < 2; i++ {
+		if fmt.Sprint(got[i]) != "[100 101]" {
+			vrt.Failf("registration/handler-misses-frames", "handler %d, registered concurrently with another one, received %v of the frames [100 101]", i, got[i])
+		}
+	}
+	vrt.Observe("ids=%v", ids)
+	a.Close()
+	b.Close()
+	vrt.Quiesce()
+}
+
 func init() {
+	reg.Register(&reg.Scenario{Property: "C10", Name: "concurrent-registration", Body: registration, Quick: 2, Thorough: 99,
+		Doc: "two goroutines call MakeHandler on one endpoint at the same time; then two frames arrive: both handlers get both"})
 	reg.Register(&reg.Scenario{Property: "C10", Name: "calls-blocked-first-handler", Body: body(2, 2, false, net.Call, true), Quick: 2, Thorough: 4,
 		Doc: "2 senders x 2 Call frames; the first registered handler selects everything but never drains its 1-slot queue", MustFlag: []string{"sender-overtaken"}})
 	reg.Register(&reg.Scenario{Property: "C10", Name: "two-senders", Body: body(2, 2, false, net.Post, false), Quick: 2, Thorough: 5,
